@@ -330,7 +330,11 @@ def eval_xproc(ctx, pg, sc):
             json.dump(C.jsonable(stats), fh)
         env = dict(os.environ, PYTHONHASHSEED=str(sc['hashseed']))
         reader = os.path.join(os.path.dirname(os.path.abspath(__file__)), 'c18_reader.py')
-        proc = subprocess.run([sys.executable, reader, path, qpath], env=env, capture_output=True, text=True, timeout=200)
+        try:
+            proc = subprocess.run([sys.executable, reader, path, qpath], env=env, capture_output=True, text=True, timeout=200)
+        except subprocess.TimeoutExpired:
+            ctx.skipped += 1; ctx.count('xproc:reader-timeout')       # an overloaded machine, not a verdict
+            return
     finally:
         for f in (path, qpath):
             try:
